@@ -994,6 +994,7 @@ class Interp:
         constructor raises at top level)"""
         self.n_objects += 1
         o = Obj(name or '%s#%d' % (ci.name, self.n_objects), ci, closed=True)
+        o.interp = self             # the interpreter the object lives in (rules read public attributes through it)
         got = self.repo.find_method(ci, '__init__', missing_ok=True)
         if got:
             r = self.call_function(got[0].module, got[1], args, kwargs, self_obj=o, owner=got[0],
@@ -4972,7 +4973,8 @@ def canonical_extremum(I, which, items):
         shared = set.intersection(*[set(m_) for m_ in monos])
         g = {}
         for a_ in shared:
-            if a_ in SURELY_POSITIVE or a_.startswith('U<') or a_ in I.positive_syms:
+            if a_ in SURELY_POSITIVE or a_.startswith('U<') or a_ in I.positive_syms or \
+                    re.fullmatch(r'[TP]\d+', a_):                       # further temperatures / pressures of a rule
                 e_ = min(m_[a_] for m_ in monos)
                 if e_ != 0:
                     g[a_] = e_
